@@ -592,6 +592,12 @@ def apply_contracts(text, fspec, log, relpath, unwind=None):
                     edits.append((ln[1], 0, '\n' + mark_text(pairs)))
                 else:
                     edits.append((ln[0], 0, mark_text(pairs) + '\n'))
+            for (var, ty) in spec.lettypes:
+                lm = re.search(r'\blet\s+(?:mut\s+)?%s\s*(?==[^=])' % re.escape(var), msk[f.body_open:f.body_close])
+                if not lm:
+                    raise ExtractError('lettype: `let %s =` not found in %s' % (var, f.key))
+                edits.append((f.body_open + lm.end(), 0, ': %s ' % ty))
+                log.rule('R-lettype', '%s: %s' % (f.key, var))
             if spec.loops:
                 loops = find_loops(text, msk, f)
                 for k, pairs in spec.loops.items():
